@@ -23,8 +23,11 @@ func TestMain(m *testing.M) { hx.Main(m, "C17") }
 func record(dotu bool, o *Outcome) {
 	hx.Eval()
 	hx.Label(fmt.Sprintf("%s %s -> %s", o.Op, o.Label, o.Result))
-	if o.BFailed || o.Touched || o.Attr != "" {
+	if o.BFailed || o.Touched || o.Attr != "" || o.RelTime {
 		hx.NonTrivial(o.Op, o.ArgClass, o.Result, dotu, o.Touched, o.Attr)
+	}
+	if o.RelTime {
+		hx.ExtraAdd("wstats_with_times_relative_to_current", 1)
 	}
 	if o.Attr != "" {
 		// the step touched an object with attributes prepared on the host
@@ -185,6 +188,38 @@ func drawMtime(t *rapid.T, label string) uint32 {
 	return rapid.OneOf(rapid.SampledFrom(mtimeSet), rapid.Uint32Range(1, 1600000000), rapid.Uint32Range(2000000000, 0xFFFFFFFE)).Draw(t, label)
 }
 
+// drawNsec: a sub-second part (utimensat keeps it; a 9P time has none).
+func drawNsec(t *rapid.T, label string) uint32 {
+	return rapid.OneOf(rapid.SampledFrom([]uint32{1, 500000000, 999999999, 0}), rapid.Uint32Range(1, 999999999)).Draw(t, label)
+}
+
+// drawRelTimes fills the time fields of a wstat step. Half of the draws take
+// the values from the object's CURRENT state (resolved by the executor when
+// the Twstat is sent): its mtime second, the link's own, the parent's, its
+// atime second, each exactly or one second off; Mtime / Atime then only serve
+// when the object cannot be stat'ed.
+func drawRelTimes(t *rapid.T, s *Step, always bool) {
+	s.SetMtime = true
+	s.Mtime = drawMtime(t, "mtime")
+	rel := always || rapid.Bool().Draw(t, "reltime")
+	if rel {
+		s.MRel = rapid.SampledFrom([]string{"cur", "cur", "cur", "cur", "link", "link", "parent", "atime", ""}).Draw(t, "mrel")
+		if s.MRel != "" {
+			s.MOff = rapid.SampledFrom([]int32{0, 0, 0, -1, 1}).Draw(t, "moff")
+		}
+	}
+	if rapid.Bool().Draw(t, "withatime") {
+		s.SetAtime = true
+		s.Atime = drawMtime(t, "atime")
+		if rel {
+			s.ARel = rapid.SampledFrom([]string{"cur", "cur", "mtime", "link", ""}).Draw(t, "arel")
+			if s.ARel != "" {
+				s.AOff = rapid.SampledFrom([]int32{0, 0, -1, 1}).Draw(t, "aoff")
+			}
+		}
+	}
+}
+
 func cloneComps(c [][]byte, extra ...[]byte) [][]byte {
 	out := make([][]byte, 0, len(c)+len(extra))
 	out = append(out, c...)
@@ -248,6 +283,9 @@ func drawTree(t *rapid.T, pool [][]byte) []Node {
 		}
 		if hasMode(kind) && rapid.IntRange(0, 2).Draw(t, "setmtime") == 0 {
 			nd.Mtime = drawMtime(t, "mtime")
+			if rapid.Bool().Draw(t, "subsec") {
+				nd.Mnsec = drawNsec(t, "mnsec")
+			}
 		}
 		used[relOf(p)] = true
 		nodes = append(nodes, nd)
@@ -532,12 +570,7 @@ func (g *gen) drawWstatOne(t *rapid.T, o obj) Step {
 		s.SetMode = true
 		s.WMode = drawPerm(t, "wmode")
 	case "mtime":
-		s.SetMtime = true
-		s.Mtime = drawMtime(t, "mtime")
-		if rapid.Bool().Draw(t, "withatime") {
-			s.SetAtime = true
-			s.Atime = drawMtime(t, "atime")
-		}
+		drawRelTimes(t, &s, false)
 	}
 	s.Stale = g.stale(t)
 	return s
@@ -779,12 +812,7 @@ func (g *gen) wstatCombo(t *rapid.T) {
 		s.Length = g.drawLength(t, o)
 	}
 	if mask&8 != 0 {
-		s.SetMtime = true
-		s.Mtime = drawMtime(t, "mtime")
-		if rapid.Bool().Draw(t, "withatime") {
-			s.SetAtime = true
-			s.Atime = drawMtime(t, "atime")
-		}
+		drawRelTimes(t, &s, false)
 	}
 	n := 0
 	for _, b := range []bool{s.SetMode, len(s.Name) > 0, s.SetLen, s.SetMtime} {
@@ -794,6 +822,89 @@ func (g *gen) wstatCombo(t *rapid.T) {
 	}
 	if n < 2 {
 		t.Skip("fewer than two fields")
+	}
+	s.Keep = g.keep(t)
+	g.run(t, s)
+}
+
+// wstatTimes: a Twstat whose Mtime (and Atime) are taken from the object's
+// current state — exactly the second it already shows, one second off, the
+// parent's, the symbolic link's own as opposed to its target's — alone or
+// together with Mode / Name / Length in the same message, on files, directories,
+// special files and fids that designate a symbolic link to a file or directory.
+// Two draws in three the host first gives the object (and the link itself)
+// explicit times with sub-second parts in both trees, so that the resulting
+// mtime is compared to the nanosecond with what the POSIX sequence chmod,
+// rename, truncate, utimes leaves in B.
+func (g *gen) wstatTimes(t *rapid.T) {
+	var cands []obj
+	for _, o := range g.objects() {
+		if hasMode(o.kind) || (o.kind == "symlink" && o.follow != "none") {
+			cands = append(cands, o)
+		}
+	}
+	if len(cands) == 0 {
+		t.Skip("no object whose times can be set")
+	}
+	// one draw in three goes to a fid on a symbolic link when the tree has one
+	// (lstat and stat of the fid's path then show different objects)
+	if rapid.IntRange(0, 2).Draw(t, "preferlink") == 0 {
+		var links []obj
+		for _, o := range cands {
+			if o.kind == "symlink" {
+				links = append(links, o)
+			}
+		}
+		if len(links) > 0 {
+			cands = links
+		}
+	}
+	o := cands[rapid.IntRange(0, len(cands)-1).Draw(t, "target")]
+	parent := o.comps[:len(o.comps)-1]
+	s := Step{Op: "wstat", Path: o.comps}
+	if rapid.IntRange(0, 2).Draw(t, "prep") != 0 {
+		p := &TimePrep{Msec: drawMtime(t, "prep-mtime"), Asec: drawMtime(t, "prep-atime")}
+		if rapid.IntRange(0, 3).Draw(t, "prep-subsec") != 0 {
+			p.Mnsec = drawNsec(t, "prep-mnsec")
+			p.Ansec = drawNsec(t, "prep-ansec")
+		}
+		if rapid.IntRange(0, 3).Draw(t, "prep-atime-is-mtime") == 0 {
+			p.Asec = p.Msec
+		}
+		if o.kind == "symlink" {
+			p.Link = true
+			p.LMsec, p.LMnsec = drawMtime(t, "prep-lmtime"), drawNsec(t, "prep-lmnsec")
+			p.LAsec, p.LAnsec = drawMtime(t, "prep-latime"), drawNsec(t, "prep-lansec")
+			if rapid.IntRange(0, 3).Draw(t, "prep-link-same-second") == 0 {
+				p.LMsec = p.Msec
+			}
+		}
+		s.Prep = p
+	}
+	drawRelTimes(t, &s, true)
+	mask := rapid.SampledFrom([]int{0, 0, 0, 1, 2, 3, 4, 4, 4, 5, 6, 7}).Draw(t, "fields")
+	if mask&1 != 0 {
+		s.SetMode = true
+		s.WMode = drawPerm(t, "wmode")
+	}
+	if mask&2 != 0 {
+		var nm []byte
+		switch rapid.SampledFrom([]string{"pool", "pool", "fresh", "same"}).Draw(t, "namesrc") {
+		case "pool":
+			nm = g.pool[rapid.IntRange(0, len(g.pool)-1).Draw(t, "newname")]
+		case "fresh":
+			nm = genName(t, "newname")
+		default:
+			nm = o.comps[len(o.comps)-1]
+		}
+		if g.exists(parent, nm) && !bytes.Equal(nm, o.comps[len(o.comps)-1]) {
+			nm = nil
+		}
+		s.Name = append([]byte{}, nm...)
+	}
+	if mask&4 != 0 && o.follow == "file" {
+		s.SetLen = true
+		s.Length = g.drawLength(t, o)
 	}
 	s.Keep = g.keep(t)
 	g.run(t, s)
@@ -848,6 +959,8 @@ func TestPropTwin(t *testing.T) {
 			"wstatOne":      g.wstatOne,
 			"wstatCombo":    g.wstatCombo,
 			"wstatPrepared": g.wstatPrepared,
+			"wstatTimes":    g.wstatTimes,
+			"wstatTimes2":   g.wstatTimes,
 			"reuse":         g.reuse,
 			"reuseAgain":    g.reuse,
 			"replaced":      g.replaced,
